@@ -1645,6 +1645,63 @@ impl Ctx {
             if i % 16 == 0 {
                 self.koto_api_agrees(&p.src);
             }
+            if i % 8 == 3 {
+                self.no_source_case(&p.src, false);
+            }
+        }
+    }
+
+    /// (D) a chunk compiled from an AST (`Compiler::compile_ast`, public) has a source map but no
+    /// source text: rendering an error of such a chunk must not panic and must still give the
+    /// positions of its frames (`line:column` headers, nothing to quote)
+    fn no_source_case(&mut self, src: &str, quiet: bool) -> Option<String> {
+        let out = kvh::catch(|| {
+            let ast = koto_parser::Parser::parse(src).ok()?;
+            let chunk = koto_bytecode::Compiler::compile_ast(ast, None, compiler_settings()).ok()?;
+            let mut vm = KotoVm::with_settings(KotoVmSettings { stdout: koto_runtime::make_ptr!(Capture::new()), stderr: koto_runtime::make_ptr!(Capture::new()), ..Default::default() });
+            let e = vm.run(Ptr::from(chunk)).err()?;
+            let heads: Vec<String> = e
+                .trace
+                .iter()
+                .map(|InstructionFrame { chunk, instruction }| chunk.debug_info.get_source_span(*instruction).map(|s| format!("{}:{}", s.start.line + 1, s.start.column + 1)).unwrap_or("none".into()))
+                .collect();
+            let no_text = e.trace.iter().all(|f| f.chunk.debug_info.source.is_empty());
+            Some((heads, no_text, kvh::catch(|| e.to_string())))
+        });
+        self.rep.case(&format!("nosource {} {}", kvh::fnv1a(src.as_bytes()), settings_label()), true);
+        self.rep.bump("no_source_text_renderings");
+        let det = |what: &str, extra: Value| json!({"replay_kind": "nosource", "settings": [settings().0, settings().1], "program": src, "what": what, "observed": extra});
+        let fail: Option<(String, Value)> = match out {
+            Err(p) => Some(("C12:panic".into(), det("compiling / running the AST-compiled chunk panicked", json!(p)))),
+            Ok(None) => None,
+            Ok(Some((heads, no_text, rendered))) => match rendered {
+                Err(pm) => {
+                    // open finding F-C12-6: cause = the chunk has no source text at all
+                    if self.attribute && no_text && self.open.iter().any(|x| x == "F-C12-6") {
+                        *self.known_hits.entry("F-C12-6".to_string()).or_default() += 1;
+                        None
+                    } else {
+                        Some(("C12:render-panic".into(), det("rendering the error of a chunk without source text panicked", json!(pm))))
+                    }
+                }
+                Ok(text) => {
+                    let got: Vec<String> = text.split("\n--- ").skip(1).map(|p| p.split('\n').next().unwrap_or("").to_string()).collect();
+                    if got != heads {
+                        Some(("C12:no-source-positions".into(), det("the rendered message of a chunk without source text does not list the positions of its frames", json!({"rendered": text, "expected_positions": heads}))))
+                    } else {
+                        None
+                    }
+                }
+            },
+        };
+        match fail {
+            None => None,
+            Some((n, d)) => {
+                if !quiet {
+                    self.d(&n, d);
+                }
+                Some(n)
+            }
         }
     }
 
@@ -2527,6 +2584,7 @@ fn run_recorded_inner(cx: &mut Ctx, d: &Value, quiet: bool) -> Option<String> {
             let frames: Vec<(usize, usize)> = d["frames"].as_array().map(|a| a.iter().map(|f| (f[0].as_u64().unwrap() as usize, f[1].as_u64().unwrap() as usize)).collect()).unwrap_or_default();
             cx.module_case(d["module"].as_str().unwrap_or(""), src, &frames, quiet)
         }
+        "nosource" => cx.no_source_case(src, quiet),
         "chainmap" => {
             let nodes: Vec<(String, usize, usize, usize)> = d["nodes"]
                 .as_array()
